@@ -96,8 +96,10 @@ type scn struct {
 	bitAddr                         string            // address of the deployed WASM bit rule ("" if not deployed)
 	kvAddr                          *types.Address    // address of the deployed WASM storage contract (nil if not deployed)
 	kvSeq                           int
-	funded                          map[string]bool // accounts that exist with a balance (the API reader only polls those)
-	relaySet                        map[int]bool    // validator indexes in the trust root currently stored for the other BitXHub (observed)
+	funded                          map[string]bool   // accounts that exist with a balance (the API reader only polls those)
+	outsiderProposals               []string          // ids of the proposals the outsider's own successful calls returned
+	setupOccupancy                  map[string]string // role manager's "occupy-account-<addr>" records as the prologue left them (state key -> value)
+	relaySet                        map[int]bool      // validator indexes in the trust root currently stored for the other BitXHub (observed)
 	relayN                          int
 	icCum                           uint64      // C09: interchain transactions counted over all blocks (incl. the prologue)
 	prevRefDump                     [][2]string // state store of the reference replica after the previous block (only kept when there are other replicas)
@@ -165,6 +167,15 @@ func Execute(prop string, p *sim.Plan, keep bool) (res *sim.Result) {
 	s.gov = newGovModel(s)
 	s.bal = newBalModel(s)
 	s.setup()
+	s.setupOccupancy = map[string]string{}
+	if len(s.reps) > 0 && res.Aborted == "" {
+		pre := string(constant.RoleContractAddr.Address().Bytes()) + "occupy-account-"
+		for _, kv := range s.reps[0].stateDump() {
+			if strings.HasPrefix(kv[0], pre) {
+				s.setupOccupancy[kv[0]] = kv[1]
+			}
+		}
+	}
 	if s.fatal || res.Aborted != "" {
 		return s.finish()
 	}
